@@ -126,6 +126,39 @@ Theorem C05_history_independent :
 Proof. exact history_independent. Qed.
 Print Assumptions C05_history_independent.
 
+(* Proxy acquisition.  A context's name table after ANY history of make_rpc_object / remove_rpc_object /
+   requests (to this or other names; lookups are not even state-changing operations of the model): a lookup of
+   n that yields a proxy yields the proxy of the object bound to n NOW, and (under class_ok for that object's
+   class) its forwarding methods are exactly the names that object accepts. *)
+Theorem C05_lookup_advertises_current :
+  forall (A R T : Type) (teqb : T -> T -> bool) (behave : cls -> name -> A -> list name -> list name * R)
+         (l : list (rop A T)) (g : registry A T) n ms,
+  rlookup A T (rrun A R T teqb behave g l) n = Some ms ->
+  exists c st, bound A T (rrun A R T teqb behave g l) n = Some (c, st) /\
+    (class_ok c = true -> incl (w_inst st) (scanned c) ->
+     forall m, In m ms <-> dispatchable c (w_inst st) m = true).
+Proof. exact lookup_advertises_current. Qed.
+Print Assumptions C05_lookup_advertises_current.
+
+(* ... in particular after the object was removed and a new one, of another class, created under the same
+   name: the next lookup is built from the new class, whatever the earlier history (earlier lookups included). *)
+Theorem C05_lookup_after_recreate :
+  forall (A R T : Type) (teqb : T -> T -> bool) (behave : cls -> name -> A -> list name -> list name * R)
+         (l : list (rop A T)) (g : registry A T) n c2 i2 d p,
+  make_descriptor c2 = DOk d -> make_proxy d = Some p ->
+  rlookup A T (rrun A R T teqb behave g (l ++ [RRemove n; RCreate n c2 i2])) n = Some (proxy_methods p) /\
+  bound A T (rrun A R T teqb behave g (l ++ [RRemove n; RCreate n c2 i2])) n = Some (c2, mkW None i2 []).
+Proof. exact lookup_after_recreate. Qed.
+Print Assumptions C05_lookup_after_recreate.
+
+(* operations on other names leave the binding (hence the lookup) of a name alone *)
+Theorem C05_lookup_other_names :
+  forall (A R T : Type) (teqb : T -> T -> bool) (behave : cls -> name -> A -> list name -> list name * R)
+         (g : registry A T) (o : rop A T) k,
+  rop_name A T o <> k -> bound A T (rstep A R T teqb behave g o) k = bound A T g k.
+Proof. exact rstep_other. Qed.
+Print Assumptions C05_lookup_other_names.
+
 (* ---- Non-vacuity: a concrete class in the shape of a QMI instrument driver ------------------------- *)
 Definition ex_object : layer :=
   mkLayer [("__init__", KBuiltin); ("__getattribute__", KBuiltin); ("__class__", KProperty)] [] [].
@@ -196,3 +229,16 @@ Example C05_example_two_objects :
   = [Some (Some (RUnknownRpc RejNoAttr)); Some (Some (RResult 0)); Some (Some (RUnknownRpc RejNoAttr));
      Some (Some (RResult 0)); Some (Some (RResult 0)); Some (Some (RResult 0)); None].
 Proof. vm_compute. reflexivity. Qed.
+
+(* a name re-bound to another class: the second lookup advertises the second class *)
+Definition ex_v2 : cls :=
+  mkCls [mkLayer [("calibrate", KFunc true); ("get_power", KFunc false)] [] []; ex_rpcobject; ex_object] [] [].
+Example C05_example_rebind :
+  let behave := fun (c : cls) (n : name) (a : nat) (i : list name) => (i, a) in
+  let g := rrun nat nat nat Nat.eqb behave []
+             [RCreate "dev" ex_cls ["_name"]; RRequest "dev" (OMethod (mkReq "get_power" 0 None));
+              RCreate "dev" ex_v2 []; RCreate "other" ex_bad []; RRemove "dev"; RCreate "dev" ex_v2 []] in
+  rlookup nat nat g "dev" = Some ["calibrate"; "get_name"] /\ rlookup nat nat g "other" = None /\
+  rlookup nat nat (rrun nat nat nat Nat.eqb behave [] [RCreate "dev" ex_cls ["_name"]; RCreate "dev" ex_v2 []]) "dev"
+    = Some ["get_power"; "get_name"].
+Proof. vm_compute. repeat split; reflexivity. Qed.
